@@ -670,6 +670,31 @@ func (e *Enc) applyTypeContract(fr *Frame, x *ssa.Call, tc *FuncContract, f Val,
 	c := x.Common()
 	tc.used = true
 	sig := c.Value.Type().Underlying().(*types.Signature)
+	if tc.iter != nil {
+		// a function value that iterates a callback (an iterator): a literal passed to it is verified as the loop body
+		var names []string
+		if p, ok := tc.opts["params"]; ok {
+			for _, n := range strings.Split(p, ",") {
+				names = append(names, strings.TrimSpace(n))
+			}
+		}
+		for i := len(names); i < sig.Params().Len(); i++ {
+			names = append(names, sig.Params().At(i).Name())
+		}
+		if e.callbackLoopG(fr, x, tc.key, names, c.Args, tc, func(s, pre *State) *evalEnv {
+			return e.typeContractEnv(tc, sig, f, c.Value.Type(), args, nil, s, pre)
+		}, st) {
+			e.modelled("ASSUMED iteration protocol of function values of type " + tc.key + " (type contract with `iterates`)")
+			return
+		}
+		e.note("iterating function value without callback clauses: " + tc.key)
+		e.havocResults(fr, x, "dyn_"+tc.key)
+		for _, a := range args {
+			e.markEscaped(a.t(), 0)
+		}
+		e.havocAll(st, "call of an iterator "+tc.key+" with a callback")
+		return
+	}
 	pre := st.clone()
 	env := e.typeContractEnv(tc, sig, f, c.Value.Type(), args, nil, st, &pre)
 	label := e.srcText(fr.fn, x.Pos(), isCallExpr)
